@@ -576,7 +576,17 @@ def replay(job):
     w = job.get("witness") or {}
     threads_, schedule = w.get("threads", job["threads"]), w.get("schedule") or []
     # projected order of gate events per step: (thread, kind)
-    order = [(e[0], e[2][0]) for e in schedule if e[2][0] in ("acq", "rel", "enter", "exit") or (e[2][0] in ("cacq", "crel") and (len(e) < 4 or e[3]))]
+    # every model step maps to the gate events the real code passes: lock operation, counter get,
+    # counter set, critical-section enter/exit
+    order = []
+    for e in schedule:
+        i, kind_ = e[0], e[2][0]
+        taken = len(e) < 4 or e[3]
+        ev = {"acq": ["lock"], "rel": ["lock"], "rd": ["get"], "wr": ["set"], "upd": ["get", "set"], "enter": ["crit"], "exit": ["crit"]}.get(kind_)
+        if kind_ in ("cacq", "crel"):
+            ev = ["get"] + (["lock"] if taken else [])
+        for x in ev or []:
+            order.append((i, x))
     cv = threading.Condition()
     pos = [0]
     state = dict(crit=set(), bad=None, badrel=None)
@@ -584,7 +594,9 @@ def replay(job):
 
     def gate(kinds):
         """block until the next scheduled event belongs to this thread (or the schedule is exhausted)"""
-        me = tid_of[threading.get_ident()]
+        me = tid_of.get(threading.get_ident())
+        if me is None:
+            return  # construction in the main thread
         with cv:
             t0 = time.time()
             while pos[0] < len(order) and order[pos[0]][0] != me and time.time() - t0 < 2:
@@ -611,12 +623,26 @@ def replay(job):
             except RuntimeError:
                 state["badrel"] = "release of a free lock"
 
-    saved = _rwlock.threading.Lock
+    class GateSwitch(_rwlock._LightSwitch):
+        """the light switch with its counter attribute behind the gate (get / set events)"""
+
+    def _getc(self):
+        gate("get")
+        return self.__dict__.get("_gated_counter", 0)
+
+    def _setc(self, v):
+        gate("set")
+        self.__dict__["_gated_counter"] = v
+
+    setattr(GateSwitch, "_LightSwitch__counter", property(_getc, _setc))
+    saved, saved_ls = _rwlock.threading.Lock, _rwlock._LightSwitch
     _rwlock.threading.Lock = GateLock
+    _rwlock._LightSwitch = GateSwitch
     try:
         lk = _rwlock.RWLock()
     finally:
         _rwlock.threading.Lock = saved
+        _rwlock._LightSwitch = saved_ls
 
     def worker(i, role):
         tid_of[threading.get_ident()] = i
